@@ -192,8 +192,11 @@ def sanity_stage(ctx):
 
 
 # ------------------------------------------------------------------ output
+OUT = os.environ.get("VERIF_OUT", VERIF)     # scratch output root for self-test runs against scratch trees
+
+
 def write_replay(pid, obj):
-    d = os.path.join(VERIF, "replays")
+    d = os.path.join(OUT, "replays")
     os.makedirs(d, exist_ok=True)
     blob = json.dumps(obj, sort_keys=True, default=str)
     path = os.path.join(d, "%s-%s.json" % (pid, hashlib.sha1(blob.encode()).hexdigest()[:12]))
@@ -234,8 +237,8 @@ def write_evidence(pid, tier, seed, wall, proof, result, violations=0, sanity=No
           "level": "proof", "coverage": cov, "wall_s": round(wall, 2), "violations": violations,
           "assumptions": ["repo under test: " + os.environ.get("PSEC_VERIF_REPO", "/repo"),
                           "see coverage.trusted_base"]}
-    os.makedirs(os.path.join(VERIF, "evidence"), exist_ok=True)
-    with open(os.path.join(VERIF, "evidence", pid + ".json"), "w") as f:
+    os.makedirs(os.path.join(OUT, "evidence"), exist_ok=True)
+    with open(os.path.join(OUT, "evidence", pid + ".json"), "w") as f:
         json.dump(ev, f, indent=1, default=str)
 
 
